@@ -570,6 +570,8 @@ def run(m, tier):
     from sa.report import retag
     results.append(retag(C08.r4_opener_index(m), "C06.R20", "the block engine calls the get_start_*() protocol on content[start_idx], never on a "
                          "comment/include/directive collected before the opening statement (AttributeError otherwise; shared with C08.R4)"))
+    from rules import order_rules as _or24
+    results.append(_or24.dispatch_terminates_rule(m, "C06.R24"))
     expl = ("Decides the structural clauses of C06: (R1) who-may-call -- no call path from the parse/print/read entry points to a "
             "process-terminating call (resolved call graph incl. grammar dispatch); (R2) every fparser exception class raised as a "
             "signal is converted at Program.__new__; (R3) every explicit raise of a non-convertible class is discharged by a guard "
